@@ -183,6 +183,7 @@ class CategoriesToIntegers(BaseEstimator, TransformerMixin):
                                 "Unable to find category value %r: %r "
                                 "type(v)=%r among\n%s" % (k, v, type(v), "\n".join(lv))
                             )
+                        continue
                     else:
                         p = pos[k] + vec[k][v]
                     res[i, p] = 1.0
